@@ -213,3 +213,40 @@ def lift_map_err(text, method, err_ty, out_ty):
     new = text[:toks[s].pos] + repl + text[toks[b1 + 1].pos + 1:]
     new = new.rstrip() + "\n\n    fn %s(&mut self, e: %s) -> %s %s\n" % (method, err_ty, out_ty, body)
     return new, 1
+
+
+def gen_derive_partial_ord(struct_text):
+    """Generated spec of `#[derive(PartialOrd)]`: lexicographic comparison of the fields in
+    their DECLARED order (assumption about rustc's derive; follows the source, so swapping
+    two fields in /repo changes the generated spec)."""
+    m = re.search(r"struct\s+(\w+)\s*<([^>]*)>", struct_text)
+    name = m.group(1)
+    gparams = [g.strip().split(":")[0].strip() for g in m.group(2).split(",")]
+    body = struct_text[struct_text.index("{") + 1:struct_text.rindex("}")]
+    fields = []
+    for ln in body.split("\n"):
+        ln = ln.strip()
+        if ln.startswith("//") or not ln:
+            continue
+        fm = re.match(r"(?:pub(?:\([a-z]+\))?\s+)?(\w+)\s*:\s*([^,]+),?", ln)
+        if fm:
+            fields.append((fm.group(1), fm.group(2).strip()))
+    ints = ("u8", "u16", "u32", "u64", "u128", "usize", "i8", "i16", "i32", "i64", "i128", "isize")
+
+    def cmp_expr(k):
+        f, ty = fields[k]
+        rest = cmp_expr(k + 1) if k + 1 < len(fields) else None
+        if ty in ints:
+            eq = rest if rest else "Some(Ordering::Equal)"
+            return ("if self.%s < other.%s { Some(Ordering::Less) } else if self.%s == other.%s { %s } else { Some(Ordering::Greater) }"
+                    % (f, f, f, f, eq))
+        eq = rest if rest else "Some(Ordering::Equal)"
+        return ("match PartialOrdSpec::partial_cmp_spec(&self.%s, &other.%s) { Some(Ordering::Equal) => %s, o => o, }" % (f, f, eq))
+    gen = [g for g in gparams if g]
+    bounds = ", ".join("%s: Copy + Clone + PartialOrd" % g for g in gen)
+    obeys = " && ".join("%s::obeys_partial_cmp_spec()" % g for g in gen) or "true"
+    txt = ("impl<%s> PartialOrdSpecImpl for %s<%s> {\n"
+           "    open spec fn obeys_partial_cmp_spec() -> bool { %s }\n"
+           "    open spec fn partial_cmp_spec(&self, other: &Self) -> Option<Ordering> {\n        %s\n    }\n}\n"
+           % (bounds, name, ", ".join(gen), obeys, cmp_expr(0)))
+    return txt
